@@ -981,6 +981,51 @@ fn examine(case: &Case, perms: &[Vec<usize>], second_observation: bool, report: 
         }
     }
 
+    // ---- monitor 5: a call made earlier in the file, while only some of the candidates were declared, changes nothing -------------
+    // (the outcome depends on the candidates visible at the call and the argument types: the same call in front of the last
+    // definitions is another call, with its own candidates; whatever it resolved to, the call in test() sees the full set)
+    if !method_mode(case) && n >= 2 {
+        let p = &perms[0];
+        let text = render(case, p, None);
+        let args: Vec<String> = case.args.iter().enumerate().map(|(i, a)| a.expr(i)).collect();
+        let mut early = String::from("void early() {\n");
+        for (i, a) in case.args.iter().enumerate() {
+            if let Some(d) = a.decl(i) {
+                early.push_str(&d);
+            }
+        }
+        early.push_str(&format!("    f({});\n}}\n", args.join(", ")));
+        let mut positions = vec![n - 1];
+        if n >= 3 {
+            positions.push(1 + (case.content_hash() % (n as u64 - 1)) as usize);
+        }
+        positions.dedup();
+        for j in positions {
+            let marker = format!("R{} f(", p[j]);
+            // the definition (not a prototype) of the j-th candidate in declaration order
+            let Some(at) = text.lines().scan(0usize, |pos, l| { let start = *pos; *pos += l.len() + 1; Some((start, l)) }).find(|(_, l)| l.starts_with(&marker) && l.contains('{')).map(|(start, _)| start) else { continue };
+            let variant = format!("{}{}{}", &text[..at], early, &text[at..]);
+            let o = observe(&variant, case, p, report);
+            report.count("monitor:earlier-call-variants");
+            let base = &outcomes[0];
+            let differs = match (base, &o) {
+                (Outcome::Chosen(a), Outcome::Chosen(b)) => a != b,
+                (Outcome::Ambiguous | Outcome::NoMatch, Outcome::Chosen(_)) => true,
+                // the earlier call itself may be unmatched or ambiguous among the candidates declared so far: then the program is
+                // rejected for that call, which says nothing about the later one
+                _ => false,
+            };
+            if differs {
+                report.violation(
+                    "outcome-depends-on-an-earlier-call",
+                    &format!("call f({}) gives [{}]; with the same call also made earlier in the file, in front of the definition of {}, it gives [{}]", case.args_text(), base.text(case), case.sig_text(p[j]), o.text(case)),
+                    witness(Json::obj().set("program_with_earlier_call", variant.as_str()).set("outcome_with_earlier_call", o.text(case))),
+                );
+                report.count("monitor-fired:earlier-call");
+            }
+        }
+    }
+
     // ---- second observation: assert_type agrees with the callee read from the IR -------------
     if second_observation {
         let p = &perms[perms.len() - 1];
